@@ -392,7 +392,7 @@ func comparableImpls(ctx *core.Ctx, r *core.Report) (impls []*types.Named, scala
 }
 
 func C17(ctx *core.Ctx, r *core.Report) {
-	r.Explanation = "Structural necessary conditions of the order laws, decided for all values at once: every val.Comparable.Compare derives the sign of its result from an exact, correctly oriented comparison of receiver and argument (no wrapping or unsigned subtraction; constants returned only where dominating branch conditions pin the relation); val.Equal on scalars is Compare==0; every scalar value kind is Comparable; tuple comparison bounds its index; slice-backed lists sort and search with one comparator; reflection-based key comparison covers every key kind. Not decided: nothing about particular values beyond these shapes."
+	r.Explanation = "Structural necessary conditions of the order laws, decided for all values at once: every val.Comparable.Compare derives the sign of its result from an exact, correctly oriented comparison of receiver and argument (no wrapping or unsigned subtraction; constants returned only where dominating branch conditions pin the relation); val.Equal on scalars is Compare==0; every scalar value kind is Comparable; tuple comparison bounds its index; slice-backed lists sort and search with one comparator; reflection-based key comparison covers every key kind. Callers of Compare/CompareVals test only the sign of the result; the linear key search of slice-backed lists matches on the conjunction of all key leaves. Not decided: nothing about particular values beyond these shapes."
 	impls, scalars := comparableImpls(ctx, r)
 	r.Count("comparable_implementers", len(impls))
 	r.Count("scalar_value_kinds", len(scalars))
